@@ -386,6 +386,14 @@ impl Criterion {
       .map(|s| Pattern::new(s).map_err(ConfigError::from))
       .collect::<Result<Vec<Pattern>, ConfigError>>()?;
 
+    // DDS Security spec v1.1 Section 9.4.1.3.2.3.1.3 (Partitions Section): if the
+    // section is not present, it is taken to contain the single expression that
+    // matches the default partition, i.e. the empty string.
+    let partitions = if partitions.is_empty() {
+      vec![String::new()]
+    } else {
+      partitions
+    };
     let partitions = partitions
       .iter()
       .map(|s| Pattern::new(s).map_err(ConfigError::from))
